@@ -14,7 +14,7 @@ def run(ctx: Ctx):
         "Model/Named.ncov_make (named_covariance container, hand model tied by correspondence): Q = diag of per-reading noise in sorted reading order",
         "oracle contracts: numpy matmul/transpose/+/-, np.linalg.inv (S S^-1 = I), sympy diff, lambdify; float rounding at relative 1e-9 on SPD dyadic P",
     ]
-    jobs = ekf.make_jobs(ctx, n_defs, n_points, ks=(None, None, 40.0), max_sensors=2, min_sensors=1, max_readings=4)
+    jobs = ekf.make_jobs(ctx, n_defs, n_points, ks=(None, None, 40.0), max_sensors=2, min_sensors=1, max_readings=4, function_coverage=True)
     res = ctx.run_impl_jobs("ekf_py.py", jobs)
     defs_text, checks, src, dist = ekf.analyse(ctx, jobs, res, "C05", do_predict=False, do_update=True)
     ekf.run_coq(ctx, jobs, res, defs_text, checks, src, "update")
